@@ -96,7 +96,7 @@ GAME_RULE = ("positions: members of TLC-enumerated families (Chess!Sane decides 
 
 
 def game_check(prop, judged, tier, seed, fam_quick, fam_thorough, mc_roots_quick, mc_depth_quick,
-               mc_roots_thorough, mc_depth_thorough, invariants, play_quick, play_thorough, assumptions):
+               mc_roots_thorough, mc_depth_thorough, invariants, play_quick, play_thorough, assumptions, extra=None):
     run = core.Run(prop, tier, seed)
     vh = prepare()
     quick = tier == "quick"
@@ -163,6 +163,8 @@ def game_check(prop, judged, tier, seed, fam_quick, fam_thorough, mc_roots_quick
         "the raw projection Game::verif_snapshot (hook) reports the fields of Game faithfully",
         "exhaustiveness holds for the listed families and bounds only; beyond them coverage is sampled"]
     shutil.rmtree(os.path.join(game.TRACES, prop), ignore_errors=True)
+    if extra is not None:
+        extra(run, quick)
     run.finish()
 
 
@@ -253,7 +255,29 @@ def c20(tier, seed):
                mc_roots_quick=[START, PROM], mc_depth_quick=2, mc_roots_thorough=ALLROOTS, mc_depth_thorough=3,
                invariants=["InvSane"],
                play_quick=(14, 4, 60, 0), play_thorough=(56, 10, 150, 0),
-               assumptions=["glyphs are transliterated by a fixed table; for promotions the origin file may be omitted"])
+               assumptions=["glyphs are transliterated by a fixed table; for promotions the origin file may be omitted"],
+               extra=show_sessions)
+
+
+def show_sessions(run, quick):
+    """C20 on the real binary, around searches: whatever `position` command the engine accepted last is what `show` depicts,
+    also when it was accepted while a search was ending (each schedule window stretched in turn).  TraceSession judges."""
+    binary = core.build_bin(False)
+    a = "position startpos moves e2e4 e7e5"
+    b = "position fen 4k3/P7/8/8/8/8/8/4K3 w - - 0 1 moves a7a8r"
+    c = "position fen r3k2r/p1ppqpb1/bn2pnp1/3PN3/1p2P3/2N2Q1p/PPPBBPPP/R3K2R w KQkq - 0 1 moves e1g1 e8c8"
+    sessions = []
+    for w in WINDOWS:
+        env = {} if w == "none" else {"VERIF_SCHED_" + w: "300"}
+        for gi, go in enumerate(["go movetime 1", "go depth 2", "go movetime 40"]):
+            for delay in ((0.0, 0.15) if quick else (0.0, 0.05, 0.15, 0.35)):
+                sessions.append({"id": "show-%s-%d-%d" % (w, gi, int(delay * 1000)), "binary": binary, "env": env, "steps": [
+                    {"send": a}, {"send": "show"}, {"send": go}, {"sleep": delay}, {"send": b}, {"waitbest": 10}, {"send": "show"},
+                    {"send": c, "afterbest": True}, {"send": "show", "afterbest": True}, {"send": "go depth 1", "afterbest": True}, {"waitbest": 10},
+                    {"send": b, "afterbest": True}, {"send": "show", "afterbest": True}, {"quit": True}]})
+    run_sessions(run, "C20", sessions, {"C20"}, "show")
+    run.cov["show_sessions"] = len(sessions)
+    shutil.rmtree(os.path.join(game.TRACES, "C20"), ignore_errors=True)
 
 
 def replay(prop, path):
